@@ -410,7 +410,7 @@ func (x *gg) genObjectWith(depth int, self string, maxAttrs int, names map[strin
 			}
 		}
 		// a default declared on an attribute whose type is a primitive alias (it must satisfy the alias's validations)
-		if _, aut := x.s.Resolve(a.Type); !required && a.Type.Kind == spec.Ref && aut != nil && aut.Kind == "alias" && spec.IsPrim(rt.Kind) && rt.Kind != spec.Bytes && x.chance(1, 2) {
+		if _, aut := x.s.Resolve(a.Type); !required && a.Type.Kind == spec.Ref && aut != nil && aut.Kind == "alias" && spec.IsPrim(rt.Kind) && rt.Kind != spec.Bytes && x.chance(4, 5) {
 			if d := x.genDefault(rt.Kind, aut.Val); d != nil {
 				a.Default, a.HasDef = d, true
 				x.s.AddFeature("default", "default-on-alias-attribute")
